@@ -83,9 +83,10 @@ Inductive out1 :=
 Section L1.
 Variables (M TH PG OV : N).    (* max short length; growth threshold, page size, malloc overhead *)
 Variable (jk : N).
-(* [fixed = true] is the code with the two repairs proposed by this check (findings C17-F1, C17-F2):
+(* [fixed = true] is the code with the repairs proposed by this check:
    EnsureBufferSize() refuses a buffer size that GetNextBufferSize()'s uint32 arithmetic wrapped below
-   the request, and Unflatten() returns the unflattener's error when no terminated string was read.
+   the request; Unflatten() returns the unflattener's error when no terminated string was read;
+   ShrinkToFit() adds its argument with saturation.
    [fixed = false] is the tree as pinned; it is kept for the [..._refuted] lemmas and for replaying. *)
 Variable (fixed : bool).
 
@@ -163,9 +164,9 @@ Definition osrc (s : str1) (o : option src) : src := match o with Some x => x | 
 
 (* the memory a `const char *` points at (NULL = None) and whether it lies in the subject's array *)
 Definition cregion (s : str1) (c : carg) : option (list N) :=
-  match c with CNull => None | CLit l => Some (l ++ [0]) | CSelf off => Some (dropN off (buf s)) end.
-Definition clocal (s : str1) (c : carg) : bool :=
-  match c with CSelf off => off <=? slen s | _ => false end.        (* IsCharInLocalArray *)
+  match c with CNull => None | CLit l => Some (l ++ [0]) | CSelf off => Some (dropN (N.min off (slen s)) (buf s)) end.
+(* CSelf off is the pointer Cstr()+min(off,Length()), so IsCharInLocalArray() holds for it *)
+Definition clocal (s : str1) (c : carg) : bool := match c with CSelf _ => true | _ => false end.
 
 (* String::SetCstr *)
 Definition set_cstr (s : str1) (c : carg) (maxLen : N) : st * str1 :=
@@ -261,7 +262,9 @@ Definition insert_chars (s : str1) (idx : N) (c : carg) (maxLen : N) : st * str1
   end.
 
 Definition prealloc (s : str1) (n : N) : st * str1 := ensure s (u32 (n + 1)) true false.
-Definition shrink_to_fit (s : str1) (extra : N) : st * str1 := ensure s (u32 (slen s + 1 + extra)) true true.
+Definition shrink_to_fit (s : str1) (extra : N) : st * str1 :=
+  let fs := slen s + 1 in
+  ensure s (u32 (fs + (if fixed then N.min extra (NOLIMIT - fs) else extra))) true true.
 Definition trunc_chars (s : str1) (n : N) : str1 :=
   let l := slen s - N.min (slen s) n in commit s (upd (buf s) l 0) l.
 Definition trunc_to (s : str1) (n : N) : str1 :=
